@@ -36,7 +36,11 @@ EXPLANATION = (
     "log10(load) - log10(strength_median) and scale == strength_std. R-C15-5: pf_arbitrary_load returns a trapezoid/trapz/"
     "simpson call (also through the local compatibility alias) over exactly load_pdf * norm.cdf(load_values, loc=log10("
     "strength_median), scale=strength_std) with the abscissa load_values. R-C15-6: no method other than the constructor writes "
-    "an attribute the pf_* methods read.")
+    "an attribute the pf_* methods read. R-C15-7: every quad call gets an absolute tolerance below a tenth of the smallest "
+    "probability the property names (1e-12); R-C15-8: the quadrature gets break points (sub-interval ends or points=) at the "
+    "centre of the strength cdf -/+ 4..16 strength_std, so that its rise is resolved when the load scatter is much larger "
+    "(both added with the repair 0182f69 of the far-tail and narrow-strength defects). R-C15-9: no pf_* method writes into an "
+    "array argument. The integration limits may not depend on the strength parameters.")
 LEVEL_NOTE = ("Decides WHICH integral is computed (integrand, coordinate shift, limits, returned component, deterministic and sampled "
               "variants, strength parameters left alone) - necessary conditions of the property. NOT decided, and the larger part "
               "of the property: whether scipy's adaptive quadrature resolves a narrow strength distribution for every scatter "
@@ -57,8 +61,63 @@ INF_TEXT = {"np.inf": 1, "numpy.inf": 1, "math.inf": 1, "float('inf')": 1, "np.I
 
 
 def run(ctx):
-    for r in (_norm_load, _simple, _arbitrary, _state):
+    for r in (_norm_load, _simple, _arbitrary, _state, _arguments):
         ctx.attempt(r)
+
+
+def _arguments(ctx):
+    """R-C15-9: no pf_* method writes into an array argument (augmented assignment, item store, out=, mutating method): the
+    sampled density handed to pf_arbitrary_load twice - for two strengths, or simply again - must give the same integral the
+    second time.  Exempt: augmented assignment to a parameter whose default is None (the documented scalar limits)."""
+    prog = ctx.prog
+    ci = prog.cls(CLS)
+    ctx.rule("R-C15-9", floor=3, what="the pf_* methods do not write into their array arguments")
+    for name, fi in sorted(prog.methods_of(ci, inherited=True).items()):
+        if not name.startswith("pf_"):
+            continue
+        a = fi.node.args
+        params = [x.arg for x in a.args if x.arg != "self"]
+        none_default = {p.arg for p, d in zip(a.args[len(a.args) - len(a.defaults):], a.defaults) if isinstance(d, ast.Constant) and d.value is None}
+        aliases = {p: p for p in params}
+        for st in walk_function(fi.node):
+            if isinstance(st, ast.Assign) and len(st.targets) == 1 and isinstance(st.targets[0], ast.Name):
+                v = _strip_conv(st.value)
+                if isinstance(v, ast.Name) and v.id in aliases and st.targets[0].id not in params:
+                    aliases[st.targets[0].id] = aliases[v.id]           # np.asarray(p) is a view of p
+        bad = []
+        for st in walk_function(fi.node):
+            if isinstance(st, ast.AugAssign):
+                t = st.target
+                base = t
+                while isinstance(base, (ast.Subscript, ast.Attribute)):
+                    base = base.value
+                if isinstance(base, ast.Name) and base.id in aliases and not (t is base and aliases[base.id] in none_default):
+                    bad.append((st, aliases[base.id]))
+            elif isinstance(st, ast.Assign):
+                for t in st.targets:
+                    base = t
+                    while isinstance(base, (ast.Subscript, ast.Attribute)):
+                        base = base.value
+                    if base is not t and isinstance(base, ast.Name) and base.id in aliases:
+                        bad.append((st, aliases[base.id]))
+            for c in ast.walk(st) if isinstance(st, (ast.Expr, ast.Assign, ast.Return, ast.AugAssign)) else []:
+                if not isinstance(c, ast.Call):
+                    continue
+                for k in c.keywords:
+                    if k.arg == "out" and isinstance(k.value, ast.Name) and k.value.id in aliases:
+                        bad.append((st, aliases[k.value.id]))
+                if isinstance(c.func, ast.Attribute) and c.func.attr in ("sort", "fill", "put", "resize", "partition", "itemset", "setflags") and \
+                        isinstance(c.func.value, ast.Name) and c.func.value.id in aliases:
+                    bad.append((st, aliases[c.func.value.id]))
+        seen = set()
+        for st, p in bad:
+            if (id(st), p) in seen:
+                continue
+            seen.add((id(st), p))
+            ctx.violated(fi, st, "%s writes into its argument `%s` (%s): the caller's array is changed, a second call with the same "
+                         "array integrates something else" % (name, p, norm_text(st)[:60]), text="in-place write to %s" % p)
+        if not bad:
+            ctx.holds(fi, fi.node, "%s leaves its array arguments untouched" % name)
 
 
 # ------------------------------------------------------------------------------------------------ helpers
@@ -219,6 +278,27 @@ def _split_none(e, assume):
     return e
 
 
+def _split_none_everywhere(e, assume):
+    """resolve every `A if p is None else B` inside e for the assumption"""
+    e = _split_none(e, assume)
+
+    def rec(n):
+        for f, v in ast.iter_fields(n):
+            if isinstance(v, ast.IfExp):
+                setattr(n, f, _split_none_everywhere(v, assume))
+            elif isinstance(v, list):
+                for i, x in enumerate(v):
+                    if isinstance(x, ast.IfExp):
+                        v[i] = _split_none_everywhere(x, assume)
+                    elif isinstance(x, ast.AST):
+                        rec(x)
+            elif isinstance(v, ast.AST):
+                rec(v)
+    if isinstance(e, ast.AST):
+        rec(e)
+    return e
+
+
 # ------------------------------------------------------------------------------------------------ R-C15-1..3
 def _integrand(prog, fi, qcall, env):
     """-> (param name of the integration variable, body expression with captured locals substituted)"""
@@ -369,7 +449,7 @@ def _norm_load(ctx):
             p = next(iter(tests))
             cases = [({p: True}, "%s is None" % p), ({p: False}, "%s given" % p)]
         for assume, label in cases:
-            e = _split_none(clone_noparent(lim_full), assume)
+            e = _split_none_everywhere(clone_noparent(lim_full), assume)
             given = [p for p, isnone in assume.items() if not isnone]
             inf = INF_TEXT.get(norm_text(e).replace('"', "'"))
             if inf is not None:
@@ -382,7 +462,17 @@ def _norm_load(ctx):
             try:
                 v = sym.nf(e)
             except NFUnsupported as ex:
+                if any(is_self_attr(n) for n in ast.walk(e)):
+                    ctx.violated(fi, q, "the %s integration limit (%s) depends on the strength parameters (%s): the range must cover "
+                                 "the load distribution whatever the strength is - load mass outside a window around the strength "
+                                 "median is lost (above it the strength cdf is 1, not 0)" % (which, label, norm_text(e)[:90]),
+                                 text="%s limit depends on the strength" % which)
+                    continue
                 raise AnalysisError("%s limit (%s) outside the normal-form fragment: %s" % (which, label, ex))
+            if any(a.startswith("ctor.") for a in _syms(v)):
+                ctx.violated(fi, q, "the %s integration limit (%s) depends on the strength parameters: %r" % (which, label, v),
+                             text="%s limit depends on the strength" % which)
+                continue
             if given or (not assume and _syms(v) & set(lim_params)):
                 p = given[0] if given else next(iter(_syms(v) & set(lim_params)))
                 want = RF.sym(p) + shift
